@@ -1,7 +1,7 @@
 """C18 — truncated files are rejected and failed writes are never reported OK."""
 from e2 import E2
 FILES = ['src/writer/file_writer.c', 'src/reader/file_reader.c', 'src/reader/mmap_reader.c']
-BUDGET = {'quick': 900, 'thorough': 3000}
+BUDGET = {'quick': 840, 'thorough': 3000}
 H = 'harness/e2/c18_cut.c'
 STUBS = ['stdio: in-memory model file system with sink-fault forks (symx/models.py)', 'open/fstat/mmap over the same model files',
          'cpuid: no SIMD features (scalar dispatch)', 'snprintf: empty string']
